@@ -189,11 +189,23 @@ pub(crate) fn apply_rules_on_link(
         product_paths.difference(&material_paths).cloned().collect();
     let deleted: BTreeSet<_> =
         material_paths.difference(&product_paths).cloned().collect();
+    // the path sets hold canonicalized paths while the link records the paths
+    // as written, so look the artifacts up by their canonicalized path
+    let materials_by_path: BTreeMap<_, _> = src_link
+        .materials
+        .iter()
+        .filter_map(|(path, value)| canonicalize_path(path).map(|p| (p, value)))
+        .collect();
+    let products_by_path: BTreeMap<_, _> = src_link
+        .products
+        .iter()
+        .filter_map(|(path, value)| canonicalize_path(path).map(|p| (p, value)))
+        .collect();
     let modified: BTreeSet<_> = material_paths
         .intersection(&product_paths)
         .cloned()
         .filter_map(|name| {
-            if src_link.materials[&name] != src_link.products[&name] {
+            if materials_by_path.get(&name) != products_by_path.get(&name) {
                 Some(name)
             } else {
                 None
